@@ -116,6 +116,110 @@ def truthiness_guards(fn: ast.FunctionDef, attr: str) -> List[str]:
     return bad
 
 
+def writes_global(fn: ast.AST, name: str) -> bool:
+    declared = any(isinstance(n, ast.Global) and name in n.names for n in ast.walk(fn))
+    return declared and any(isinstance(n, (ast.Assign, ast.AnnAssign, ast.AugAssign)) and any(isinstance(t, ast.Name) and t.id == name for t in (n.targets if isinstance(n, ast.Assign) else [n.target])) for n in ast.walk(fn))
+
+
+def callee_name(c: ast.Call, here: str, funcs) -> str:
+    """Qualified name of the module function / method of the same class a call denotes ('' if unknown)."""
+    d = dotted(c.func) or ""
+    if d in funcs:
+        return d
+    if "." in here and d.startswith(("self.", "cls.")):
+        q = here.rsplit(".", 1)[0] + "." + d.split(".", 1)[1]
+        if q in funcs:
+            return q
+    if d.startswith("type(self)."):
+        q = here.rsplit(".", 1)[0] + "." + d.split(".", 1)[1]
+        if q in funcs:
+            return q
+    return ""
+
+
+def fmt_summary(sv) -> str:
+    if sv == "None":
+        return "None"
+    if sv == "none-written":
+        return "(unchanged)"
+    if isinstance(sv, tuple) and sv[0] == "param":
+        return "its own receiver" if sv[1] == 0 else f"its parameter #{sv[1]}"
+    return str(sv)
+
+
+def global_summary(mod, funcs, q: str, name: str, depth: int = 0):
+    """What the function leaves in the module global ``name`` on every normal path:
+    'None' | ('param', i) | 'none-written' | 'mixed' (paths disagree) | '?' (not understood)."""
+    fn = funcs[q]
+    params = [a.arg for a in fn.args.posonlyargs + fn.args.args]
+    declared = any(isinstance(n, ast.Global) and name in n.names for n in ast.walk(fn))
+    ends = []
+
+    def classify(v: ast.AST):
+        v = strip_cast(v)
+        if isinstance(v, ast.Constant) and v.value is None:
+            return "None"
+        if isinstance(v, ast.Name) and v.id in params:
+            return ("param", params.index(v.id))
+        return "?"
+
+    def subst(sv, call: ast.Call, bound_self: bool):
+        if isinstance(sv, tuple) and sv[0] == "param":
+            i = sv[1] - (1 if bound_self else 0)
+            if bound_self and sv[1] == 0:
+                return classify(call.func.value) if isinstance(call.func, ast.Attribute) else "?"
+            if 0 <= i < len(call.args):
+                return classify(call.args[i])
+            callee_params = None
+            return "?"
+        return sv
+
+    def block(stmts, cur):
+        for st in stmts:
+            if isinstance(st, (ast.Assign, ast.AnnAssign)):
+                ts = st.targets if isinstance(st, ast.Assign) else [st.target]
+                if declared and any(isinstance(t, ast.Name) and t.id == name for t in ts) and st.value is not None:
+                    cur = classify(st.value)
+                    continue
+            if isinstance(st, ast.Expr) and isinstance(st.value, ast.Call):
+                tgt = callee_name(st.value, q, funcs)
+                if tgt and depth < 4 and (writes_global(funcs[tgt], name) or any(callee_name(c, tgt, funcs) for c in ast.walk(funcs[tgt]) if isinstance(c, ast.Call))):
+                    inner = global_summary(mod, funcs, tgt, name, depth + 1)
+                    if inner != "none-written":
+                        d = dotted(st.value.func) or ""
+                        cur = subst(inner, st.value, bound_self=d.startswith(("self.", "cls.", "type(self).")))
+                    continue
+            if isinstance(st, ast.If):
+                a = block(st.body, cur)
+                b = block(st.orelse, cur)
+                if a is None and b is None:
+                    return None
+                if a is None:
+                    cur = b
+                elif b is None:
+                    cur = a
+                else:
+                    cur = a if a == b else "mixed"
+                continue
+            if isinstance(st, ast.Return):
+                ends.append(cur)
+                return None
+            if isinstance(st, ast.Raise):
+                return None
+            if isinstance(st, (ast.For, ast.While, ast.Try, ast.With)):
+                if any(isinstance(n, (ast.Assign, ast.AnnAssign)) and any(isinstance(t, ast.Name) and t.id == name for t in (n.targets if isinstance(n, ast.Assign) else [n.target])) for n in ast.walk(st)) or \
+                        any(isinstance(c, ast.Call) and callee_name(c, q, funcs) and writes_global(funcs[callee_name(c, q, funcs)], name) for c in ast.walk(st)):
+                    cur = "?"
+        return cur
+
+    last = block(fn.body, "none-written")
+    if last is not None:
+        ends.append(last)
+    if not ends:
+        return "?"
+    return ends[0] if all(e == ends[0] for e in ends) else "mixed"
+
+
 def check(repo: Repo, run: Run) -> None:
     run.explanation = (
         "X1 (typestate of the module global C7N): its only writers are C7NContext.__enter__/__exit__; __exit__ assigns None on "
@@ -129,36 +233,46 @@ def check(repo: Repo, run: Run) -> None:
     )
     c7 = repo.mod("c7nlib")
     # X1 -----------------------------------------------------------------
-    writers = []
-    for q, fn in c7.functions():
-        globs = set()
-        for n in ast.walk(fn):
-            if isinstance(n, ast.Global):
-                globs |= set(n.names)
-        if "C7N" in globs:
-            for n in ast.walk(fn):
-                if isinstance(n, ast.Assign) and any(isinstance(t, ast.Name) and t.id == "C7N" for t in n.targets):
-                    writers.append((q, n))
-    wq = sorted({q for q, _ in writers})
-    run.ob("C17.X1", "C7N|writers", wq == ["C7NContext.__enter__", "C7NContext.__exit__"], f"the global C7N is written by {wq}; only the context manager may write it", str(c7.path))
+    funcs = dict(c7.functions())
+    direct_writers = sorted(q for q, fn in funcs.items() if writes_global(fn, "C7N"))
+    summ = {q: global_summary(c7, funcs, q, "C7N") for q in funcs if q in direct_writers or q in ("C7NContext.__enter__", "C7NContext.__exit__")}
+    # who may write: the context manager's two methods, and helpers that only they call
+    callers = {}
+    for q, fn in funcs.items():
+        for c in ast.walk(fn):
+            if isinstance(c, ast.Call):
+                tgt = callee_name(c, q, funcs)
+                if tgt in direct_writers and tgt != q:
+                    callers.setdefault(tgt, set()).add(q)
+    allowed = {"C7NContext.__enter__", "C7NContext.__exit__"}
+    rogue = []
+    for w in direct_writers:
+        if w in allowed:
+            continue
+        cs = callers.get(w, set())
+        if not cs or not cs <= allowed | set(direct_writers):
+            rogue.append(f"{w} (called by {sorted(cs) or 'nobody'})")
+    # module-level code must not call a writer either
+    for st in c7.tree.body:
+        if not isinstance(st, (ast.FunctionDef, ast.ClassDef)):
+            for c in ast.walk(st):
+                if isinstance(c, ast.Call) and callee_name(c, "", funcs) in direct_writers:
+                    rogue.append(f"module level calls {callee_name(c, '', funcs)}")
+    run.ob("C17.X1", "C7N|writers", not rogue and bool(direct_writers),
+           f"the global C7N is written by {direct_writers}" + (f"; only the context manager (and helpers only it calls) may write it: {rogue}" if rogue else ", all of them the context manager's methods or helpers only they call"), str(c7.path))
     ent = c7.func("C7NContext.__enter__")
-    run.ob("C17.X1", "C7NContext.__enter__", any(ast.unparse(n.value) == "self" for q, n in writers if q.endswith("__enter__")), "__enter__ installs the context", c7.loc(ent))
+    se = summ.get("C7NContext.__enter__")
+    if se is None or se == "?":
+        run.inconclusive("C17.X1", "C7NContext.__enter__", "the value __enter__ leaves in C7N could not be determined")
+    else:
+        run.ob("C17.X1", "C7NContext.__enter__", se == ("param", 0), f"__enter__ leaves C7N = {fmt_summary(se)} on every path; it must install the context itself", c7.loc(ent))
     ex = c7.func("C7NContext.__exit__")
-    # every path of __exit__ assigns None before leaving; returns falsy
-    def clears(stmts) -> bool:
-        for st in stmts:
-            if isinstance(st, ast.Assign) and any(isinstance(t, ast.Name) and t.id == "C7N" for t in st.targets):
-                v = strip_cast(st.value)
-                if isinstance(v, ast.Constant) and v.value is None:
-                    return True
-            if isinstance(st, ast.If):
-                if clears(st.body) and clears(st.orelse):
-                    return True
-            if isinstance(st, (ast.Return, ast.Raise)):
-                return False
-        return False
+    sx = summ.get("C7NContext.__exit__")
     rets = [n for n in ast.walk(ex) if isinstance(n, ast.Return) and n.value is not None and not (isinstance(n.value, ast.Constant) and not n.value.value)]
-    run.ob("C17.X1", "C7NContext.__exit__|clears", clears(ex.body), "__exit__ sets C7N back to None on every path before returning", c7.loc(ex))
+    if sx is None or sx == "?":
+        run.inconclusive("C17.X1", "C7NContext.__exit__|clears", "the value __exit__ leaves in C7N could not be determined")
+    else:
+        run.ob("C17.X1", "C7NContext.__exit__|clears", sx == "None", f"__exit__ leaves C7N = {fmt_summary(sx)}; it must set it back to None on every path before returning", c7.loc(ex))
     run.ob("C17.X1", "C7NContext.__exit__|propagates", not rets, "__exit__ returns a falsy value: exceptions of the evaluation propagate", c7.loc(ex))
     rn = c7.func("C7N_Interpreted_Runner.evaluate")
     evals = [n for n in ast.walk(rn) if isinstance(n, ast.Call) and isinstance(n.func, ast.Attribute) and n.func.attr == "evaluate"]
@@ -192,16 +306,23 @@ def check(repo: Repo, run: Run) -> None:
     run.ob("C17.X2", "registries|defined", not missing, f"every bound function is defined in c7nlib (missing: {missing})", str(c7.path))
     # X3 -----------------------------------------------------------------
     arn = c7.func("arn_split")
-    tables = []
+    tables = None
+    from ..core.consteval import try_const
+
+    # the table selected by the number of fields: the base of a subscript whose index is len(<fields>)
     for n in ast.walk(arn):
-        if isinstance(n, ast.DictComp) and ast.unparse(n.key).startswith("len("):
-            it = n.generators[0].iter
-            if isinstance(it, (ast.List, ast.Tuple)):
-                tables = [list(fold(e)) for e in it.elts]
-    want = [[f for f in ARN_FIELDS if f != "resource-type"], ARN_FIELDS]
-    run.ob("C17.X3", "arn_split|tables", tables == want, f"ARN field tables {tables}; documented {want}, keyed by length", c7.loc(arn))
+        if isinstance(n, ast.Subscript) and isinstance(n.ctx, ast.Load) and isinstance(n.slice, ast.Call) and dotted(n.slice.func) == "len":
+            val = try_const(c7, n.value, None, arn)
+            if isinstance(val, dict) and val and all(isinstance(k, int) for k in val):
+                tables = val
+    want = {len(t): tuple(t) for t in ([f for f in ARN_FIELDS if f != "resource-type"], ARN_FIELDS)}
+    if tables is None:
+        run.inconclusive("C17.X3", "arn_split|tables", "no constant table indexed by len(fields) was found in arn_split")
+    else:
+        got = {k: tuple(v) for k, v in tables.items()}
+        run.ob("C17.X3", "arn_split|tables", got == want, f"ARN field tables {got}; documented {want} (keyed by the number of fields)", c7.loc(arn))
     s = ast.unparse(arn)
-    run.ob("C17.X3", "arn_split|prefix", "arn.split(':')" in s and "prefix != 'arn'" in s and "field_names[len(fields)]" in s,
+    run.shape("C17.X3", "arn_split|prefix", "arn.split(':')" in s and "prefix != 'arn'" in s and "field_names[len(fields)]" in s,
            "arn_split splits on ':', requires the 'arn' prefix and selects the table by field count", c7.loc(arn))
     # X4 -----------------------------------------------------------------
     kind, why = set_algebra(c7.func("intersect"))
@@ -235,28 +356,30 @@ def check(repo: Repo, run: Run) -> None:
     s = ast.unparse(ky)
     consts = {n.value for n in ast.walk(ky) if isinstance(n, ast.Constant) and isinstance(n.value, str) and n.value in ("Key", "Value")}
     ok = consts == {"Key", "Value"} and "next(matches)" in s and "except StopIteration" in s and ".get(key)) == target" in s and ".get(value)" in s
-    run.ob("C17.X4", "key", ok, "key(tags, k): the Value of the first item whose Key equals k, null when there is none", c7.loc(ky))
+    run.shape("C17.X4", "key", ok, "key(tags, k): the Value of the first item whose Key equals k, null when there is none", c7.loc(ky))
     sp = c7.func("size_parse_cidr")
     bad = truthiness_guards(sp, "prefixlen")
     s = ast.unparse(sp)
-    run.ob("C17.X4", "size_parse_cidr", not bad and "prefixlen" in s and "IntType(" in s,
-           "size_parse_cidr " + ("returns the prefix length of a parsed network" if not bad else f"decides absence by the truthiness of the prefix length (`{bad[0]}`): /0 networks yield null instead of 0"), c7.loc(sp))
+    if bad:
+        run.ob("C17.X4", "size_parse_cidr", False, f"size_parse_cidr decides absence by the truthiness of the prefix length (`{bad[0]}`): /0 networks yield null instead of 0", c7.loc(sp))
+    else:
+        run.shape("C17.X4", "size_parse_cidr", "prefixlen" in s and "IntType(" in s, "size_parse_cidr returns the prefix length of a parsed network", c7.loc(sp))
     net = class_methods(c7.cls("IPv4Network")).get("__contains__")
     s = ast.unparse(net) if net else ""
-    run.ob("C17.X4", "IPv4Network.__contains__", "self.supernet_of(other)" in s and "super(IPv4Network, self).__contains__(other)" in s or "super().__contains__(other)" in s,
+    run.shape("C17.X4", "IPv4Network.__contains__", "self.supernet_of(other)" in s and "super(IPv4Network, self).__contains__(other)" in s or "super().__contains__(other)" in s,
            "network containment: a network is contained iff self is its supernet; an address through ipaddress' own test", c7.loc(net) if net else str(c7.path))
     pc = c7.func("parse_cidr")
     s = ast.unparse(pc)
-    run.ob("C17.X4", "parse_cidr", "'/' not in value" in s and "ipaddress.ip_address" in s and "IPv4Network" in s and "v = None" in s,
+    run.shape("C17.X4", "parse_cidr", "'/' not in value" in s and "ipaddress.ip_address" in s and "IPv4Network" in s and "v = None" in s,
            "parse_cidr: a network when the text has '/', else an address, null when unparsable", c7.loc(pc))
     for name, want in (("present", "bool(value)"), ("absent", "not bool(value)")):
         fn = c7.func(name)
         e = ret_expr(fn)
-        run.ob("C17.X4", name, e is not None and ast.unparse(e) == want, f"{name}(v) = `{ast.unparse(e) if e is not None else '?'}`; definition `{want}`", c7.loc(fn))
+        run.shape("C17.X4", name, e is not None and ast.unparse(e) == want, f"{name}(v) = `{ast.unparse(e) if e is not None else '?'}`; definition `{want}`", c7.loc(fn))
     vs = c7.func("version")
     e = ret_expr(vs)
-    run.ob("C17.X4", "version", e is not None and ast.unparse(e) == "ComparableVersion(value)", "version(v) builds a ComparableVersion (numeric component order of packaging.Version)", c7.loc(vs))
+    run.shape("C17.X4", "version", e is not None and ast.unparse(e) == "ComparableVersion(value)", "version(v) builds a ComparableVersion (numeric component order of packaging.Version)", c7.loc(vs))
     mk = c7.func("marked_key")
     s = ast.unparse(mk)
     ok = ".rsplit(':', 1)" in s and ".split('@', 1)" in s and all(f"StringType('{k}')" in s for k in ("message", "action", "action_date")) and "key(source, target)" in s
-    run.ob("C17.X4", "marked_key", ok, "marked_key decomposes `message:action@date` (last ':' then first '@') into message/action/action_date", c7.loc(mk))
+    run.shape("C17.X4", "marked_key", ok, "marked_key decomposes `message:action@date` (last ':' then first '@') into message/action/action_date", c7.loc(mk))
